@@ -142,6 +142,12 @@ class _Scope(Contract):
             self.raised.append(("disposables-exit", e, True))
             raise PyRaise(e, "cancelled while exiting disposables")
         if aw.kind == "tg-exit":
+            # tasks spawned into this scope's group run with this scope's metrics as their innermost scope: it
+            # must stay open (not finished) until the group has been awaited, else their records are dropped
+            # (C10) and the scope completes while its own tasks still run (C09)
+            open_ = z3.BoolVal(not any(e[0] == "metrics" and e[1].endswith("_finish") for e in st.events))
+            st.check("C10-P6:the-scope's-metrics-are-not-finished-before-its-task-group-has-been-awaited", open_)
+            st.check("C09-P8:the-scope-is-not-finished-before-its-task-group-has-been-awaited", open_)
             try:
                 return it.engine.default_await(it, aw, idx, node)
             except PyRaise as pr:
